@@ -14,16 +14,19 @@ import pandas as pd
 from rv.core import vio
 from rv.instrument import patch
 from rv.oracles import bodyint
+from rv.workloads import forms
 
 ID = 'C15'
 RULE = ('seeded random 3-axis signals: linear (a + b t, d + e t with non-parallel a, b, d, e up to ~3 rad/s, ~3 g over '
         'the span) and sinusoidal (per-axis amplitudes to 1.5 rad/s / 15 m/s^2 + gravity, frequencies 2..15 rad/s), '
-        'rate and increment types (increment inputs are exact interval integrals), uniform and jittered (+-50 %) stamps, '
+        'rate and increment types (increment inputs are exact interval integrals), uniform and irregular stamps (random jitter +-50 %, one late sample on a regular clock, two rates, alternating, ramp, gap, odd first interval), '
+        'a third of the Imu tables with permuted labelled columns plus an unrelated one, '
         'ladder h = 160 ms .. 0.3 ms (10 halving rungs, 8 intervals each; order fitted on the <= 4 finest usable rungs); non-trivial = every case (the existing test feeds '
         'constant readings only); distinct = generator parameters')
 ASSUMPTIONS = ['reference integrals by DOP853 at rtol 1e-13; rungs used for the order fit (>= 3 consecutive) satisfy max(|w|, signal frequency) * 1.5 h <= 0.3 (linear) / 0.12 (sinusoid) '
                'and error >= 100x the oracle floor (4 eps of the increment)', 'orders required: 3.5 (linear signals, from the statement: exact through the cubic term); 2.0 for sinusoids (the docstring names no order; with jittered stamps the max-over-intervals error of a rate sensor fell as h^2.49 in a thorough run, observed range 2.5..3.0; every coefficient / sign slip is decided by the linear clause, the sinusoid clause only guards against a drop to first order)']
-REQUIRED_OBS = ['structure_checked', 'order_fits', 'rungs_evaluated']
+REQUIRED_OBS = ['structure_checked', 'order_fits', 'rungs_evaluated', 'imu_columns_permuted', 'pattern_one_late', 'pattern_two_rate', 'pattern_alternating',
+                'pattern_ramp', 'pattern_gap', 'pattern_late_first', 'pattern_jitter']
 REQUIRED_CLASSES = {'all': ['linear-rate-uniform', 'linear-rate-irregular', 'linear-increment-uniform', 'linear-increment-irregular',
                             'sine-rate-uniform', 'sine-rate-irregular', 'sine-increment-uniform', 'sine-increment-irregular']}
 GY = ['gyro_x', 'gyro_y', 'gyro_z']
@@ -66,7 +69,8 @@ def setup():
 def cases(seed, tier):
     classes = REQUIRED_CLASSES['all']
     n = 240 if tier == 'quick' else 8000
-    return [dict(seed=int(seed) * 1000003 + i, cls=classes[i % 8]) for i in range(n)]
+    pats = ['jitter', 'one_late', 'two_rate', 'alternating', 'ramp', 'gap', 'jitter', 'late_first']
+    return [dict(seed=int(seed) * 1000003 + i, cls=classes[i % 8], pattern=pats[(i // 8) % 8], shuffled=(i // 4) % 3 == 1) for i in range(n)]
 
 
 def make_signal(rng, kind):
@@ -110,7 +114,29 @@ def run_case(case):
     kind, stype, stamps = case['cls'].split('-')
     sig = make_signal(rng, kind)
     nint = 8
-    base = np.r_[0, np.cumsum(rng.uniform(0.5, 1.5, nint))] if stamps == 'irregular' else np.arange(nint + 1.0)
+    pattern = case.get('pattern', 'jitter') if stamps == 'irregular' else 'uniform'
+    if pattern == 'jitter' or stamps != 'irregular':
+        base = np.r_[0, np.cumsum(rng.uniform(0.5, 1.5, nint))] if stamps == 'irregular' else np.arange(nint + 1.0)
+    elif pattern == 'late_first':
+        # only the interval after the first sample differs (the interval "before" the first sample is what the formula must assume)
+        d = np.ones(nint)
+        d[0] = rng.choice([0.6, 1.4])
+        d[-1] = rng.choice([0.7, 1.0, 1.3])
+        base = np.r_[0, np.cumsum(d)]
+    else:
+        # structured irregularity: a regular clock with one late sample (mean interval == first interval), two rates, alternating
+        # long/short, a ramp, a gap - what real loggers produce and what a "looks regular" shortcut or a wrap-around misjudges
+        base = forms.stamps(nint, 1.0, rng, pattern)
+        if pattern == 'one_late':
+            k = int(rng.integers(1, nint - 1))
+            e = rng.uniform(0.15, 0.4)
+            d = np.ones(nint)
+            d[k] += e
+            d[k + 1] -= e
+            base = np.r_[0, np.cumsum(d)]
+    bump('pattern_' + pattern)
+    shuf = np.random.Generator(np.random.PCG64(case['seed'] + 5)) if case.get('shuffled') else None
+    bump('imu_columns_permuted', int(shuf is not None))
     t_off = rng.uniform(0, 0.5)
     eth, edv, edv2, fl_th, fl_dv, adm = [], [], [], [], [], []
     for h in HS:
@@ -125,6 +151,8 @@ def run_case(case):
             first = np.r_[np.diff(sig.W(t_1), axis=0)[0], np.diff(sig.F(t_1), axis=0)[0]]
             data = np.vstack([first, inc])
         imu = pd.DataFrame(data, index=pd.Index(tt, name='time'), columns=GY + AC)
+        if shuf is not None:
+            imu = forms.shuffle_table(imu, np.random.Generator(np.random.PCG64(case['seed'] + 5)))
         try:
             res = strapdown.compute_increments_from_imu(imu, stype)
         except Exception as e:
